@@ -25,7 +25,7 @@ func asmPath(p *Prog) string {
 }
 
 func checkC18(p *Prog, r *Report) {
-	r.Explain("Bit-for-bit equality of the assembly and Go kernels and the error bound against DCT-II are numerical facts about ~4 000 vector instructions; comparing the two operation graphs would be symbolic execution and is declined. Decided necessary conditions: COS — every divisor table (Go tables dctN / dctN32 in transforms and transforms32, assembly DATA tables dct256…dct2) equals 2·cos((i+½)π/N): float64 tables within 1 ulp, float32 tables and the assembly decimals bit-exact after rounding to float32, and the assembly tables bit-equal to the Go tables of the same N; ASMMEM — every memory operand of asmForwardDCT64, asmForwardDCT256 and asmDCT2DHash64 (base pointer provenance, displacement, index range from the counted loops and the gather table, access width from a mnemonic table) lies inside the argument (4·N bytes), the declared frame, the data symbol or the argument/result area, and the base pointer is never overwritten; CALLERLEN — every Go call that can reach a kernel passes at least N elements (E3); FPMODE — no instruction outside the known data-processing mnemonics, in particular none that changes MXCSR; FLAT — the portable 2-D kernels store column i's coefficient j at flattens[K*j+i] and the assembly 2-D kernel stores its eight results per column at ret[8*m + column], m = 0..7 once each (same row-major layout; which lane holds which frequency is part of the numerical question); VECSAFE — no counted loop of a portable kernel reads an element that an earlier iteration of that loop wrote (dependence test on the affine indexes over the constant iteration space): the stages are order-free, as the vector formulation requires; REENT — no function of the two transform packages reachable from a DCT entry point writes package-level state (the kernels are re-entrant, like the stateless vector kernels); KBND — every index/slice into a buffer such a function allocated itself (make, local array) is proved in range by E3; SELECT — the kernel selection variables are written only in their initialisers and one init function, together, under FlagUseASM, and DCT2DHash64 takes the assembly 2-D kernel under the same flag. ROWPASS: each portable DCT2DHash64/256 runs its 1-D kernel on input[i*N : i*N+N] for i = 0..N-1 in a unit-step loop with a constant bound, on every iteration, before every return (a delegation of the whole buffer to the assembly kernel excepted) — no row reaches the column pass untransformed. OBLIV: no DCT kernel function (or callee) compares floating-point values or inspects them through math.IsNaN/IsInf/Signbit/…: the portable kernels perform the same operations on every input, as the vector kernels do. LASTLANE: the vector kernels form the pair sums of the 8-point step by a zero-filling shift and an add, so their last lane is b[3] + (+0.0); the portable forwardDCT8 stores its last output as a sum with the constant +0 as well (otherwise -0 survives in Go and not in the vector kernel). COLPASS: the portable 2-D kernels gather col[j] = input[N*j + i], j = 0..N-1, and hand the buffer whole to the 1-D kernel for each i = 0..K-1.")
+	r.Explain("Bit-for-bit equality of the assembly and Go kernels and the error bound against DCT-II are numerical facts about ~4 000 vector instructions; comparing the two operation graphs would be symbolic execution and is declined. Decided necessary conditions: COS — every divisor table (Go tables dctN / dctN32 in transforms and transforms32, assembly DATA tables dct256…dct2) equals 2·cos((i+½)π/N): float64 tables within 1 ulp, float32 tables and the assembly decimals bit-exact after rounding to float32, and the assembly tables bit-equal to the Go tables of the same N; ASMMEM — every memory operand of asmForwardDCT64, asmForwardDCT256 and asmDCT2DHash64 (base pointer provenance, displacement, index range from the counted loops and the gather table, access width from a mnemonic table) lies inside the argument (4·N bytes), the declared frame, the data symbol or the argument/result area, and the base pointer is never overwritten; CALLERLEN — every Go call that can reach a kernel passes at least N elements (E3); FPMODE — no instruction outside the known data-processing mnemonics, in particular none that changes MXCSR; FLAT — the portable 2-D kernels store column i's coefficient j at flattens[K*j+i] and the assembly 2-D kernel stores its eight results per column at ret[8*m + column], m = 0..7 once each (same row-major layout; which lane holds which frequency is part of the numerical question); VECSAFE — no counted loop of a portable kernel reads an element that an earlier iteration of that loop wrote (dependence test on the affine indexes over the constant iteration space): the stages are order-free, as the vector formulation requires; REENT — no function of the two transform packages reachable from a DCT entry point writes package-level state (the kernels are re-entrant, like the stateless vector kernels); KBND — every index/slice into a buffer such a function allocated itself (make, local array) is proved in range by E3; SELECT — the kernel selection variables are written only in their initialisers and one init function, together, under FlagUseASM, and DCT2DHash64 takes the assembly 2-D kernel under the same flag. ROWPASS: each portable DCT2DHash64/256 runs its 1-D kernel on input[i*N : i*N+N] for i = 0..N-1 in a unit-step loop with a constant bound, on every iteration, before every return (a delegation of the whole buffer to the assembly kernel excepted) — no row reaches the column pass untransformed. OBLIV: no DCT kernel function (or callee) compares floating-point values or inspects them through math.IsNaN/IsInf/Signbit/…: the portable kernels perform the same operations on every input, as the vector kernels do. LASTLANE: the vector kernels form the pair sums of the 8-point step by a zero-filling shift and an add, so their last lane is b[3] + (+0.0); the portable forwardDCT8 stores its last output as a sum with the constant +0 as well (otherwise -0 survives in Go and not in the vector kernel). COLPASS: the portable 2-D kernels gather col[j] = input[N*j + i], j = 0..N-1, and hand the buffer whole to the 1-D kernel for each i = 0..K-1. ALIGN: none of the three vector DCT kernels contains an alignment-requiring memory access (MOVAPS, MOVDQA, MOVNT* with a memory operand): their argument is any []float32.")
 	r.Trusted("the Go assembler's decimal → float32 conversion rounds to nearest", "x86 vector instruction access widths as tabulated", "go vet asmdecl for the argument offsets (cross-reference)")
 	af, err := parseAsm(asmPath(p))
 	if err != nil {
@@ -74,6 +74,8 @@ func checkC18(p *Prog, r *Report) {
 	ruleKernelLocal(p, r)
 	ruleOblivious(p, r)
 	ruleLastLane(p, r, af)
+	ruleAsmAlign(r, af)
+	r.Floor("ALIGN", 3)
 	r.Floor("LASTLANE", 4)
 	r.Floor("OBLIV", 10)
 	r.Floor("REENT", 10)
